@@ -107,3 +107,1185 @@ def regenerate(ctx):
                 extra += d.sqrt_wrapper() + "\n"
         srcs = sorted(set(src.values())) + (PXD if twin == "pyx" else [])
         ctx.write_gen(f"Twins{suffix}", lean_file(f"EzdxfVerif.Gen.Twins{suffix}", defs, extra=extra), srcs)
+
+
+# ================================================================================================ twins on the real code
+RULE = (
+    "prove: twin_<f> : Py.f = Pyx.f for every kernel translated from both twins (Gen regenerated each run). "
+    "correspondence X1/X2: the kernels of Gen/Twins*.lean (Vec2/Vec3 extras, Bezier4P/3P construction+point/tangent/"
+    "control_points/reverse/transform/approximate, line-line, clockwise, ray-ray) evaluated in Lean vs BOTH implementations on "
+    "dyadic inputs (exact) or with stated relative tolerance (sqrt/division kernels). "
+    "oracle D: differential test C-extension (ezdxf.acc.*) vs pure Python (ezdxf.math._*, render._linetypes, linalg._*) of "
+    "every public name found by dir() on either twin of Vec2, Vec3, Matrix44, Bezier4P, Bezier3P, Basis, Evaluator, "
+    "_LineTypeRenderer and of the module functions (construct, bezier4p, vector, mapbox_earcut, np_support): argument tuples "
+    "from value classes (0, -0.0, 1e-13..1e-300, 1e16..1e300, dyadic, mixed magnitudes, collinear/degenerate, Vec2/Vec3/tuple/"
+    "list inputs, wrong arity and type); equal = same exception TYPE or values within 4 ulp (exact for bool/int/str), same "
+    "hash/eq/repr/bool/len/iteration; a public name present in one twin only or not exercised is itself reported. "
+    "non-trivial = result is not an exception in both twins; distinct by hash of (call, arguments)."
+)
+TRUSTED_BASE = [
+    "py2lean translator + pyx pre-pass (cross-checked by the correspondence stream of C10 and C11 on every run)",
+    "the differential oracle compares observable results only; CPython/Cython calling conventions are taken as they are",
+]
+ASSUMPTIONS = [
+    "finite doubles only (NaN/inf arguments are not part of the value classes)",
+    "4 ulp tolerance for float results of the two twins (different association order / sqrt vs pow / hypot)",
+]
+OPEN = [
+    "twin_v2bool is false on the unchanged tree (bool(Vec2) uses a tolerance in Python only): v2bool_twins_differ + twin_v2bool_partial",
+    "twin_rayRay is false on the unchanged tree (intersection_ray_ray_3d relative tolerance): rayRay_twins_differ + twin_rayRay_partial",
+    "B-spline Basis/Evaluator, earcut, linetype renderer, np_support LU: loops outside the translator subset, differential only",
+]
+
+
+def fr(x) -> str:
+    return c11.fr(x)
+
+
+def frs(xs) -> str:
+    return c11.frs(xs)
+
+
+class Impl:
+    """all objects of one implementation"""
+
+    def __init__(self, twin: str):
+        import importlib
+        self.twin = twin
+        imp = importlib.import_module
+        if twin == "pyx":
+            self.vector, self.matrix = imp("ezdxf.acc.vector"), imp("ezdxf.acc.matrix44")
+            self.bez4, self.bez3 = imp("ezdxf.acc.bezier4p"), imp("ezdxf.acc.bezier3p")
+            self.bspline, self.construct = imp("ezdxf.acc.bspline"), imp("ezdxf.acc.construct")
+            self.earcut, self.linetypes = imp("ezdxf.acc.mapbox_earcut"), imp("ezdxf.acc.linetypes")
+            self.np_support = imp("ezdxf.acc.np_support")
+        else:
+            self.vector, self.matrix = imp("ezdxf.math._vector"), imp("ezdxf.math._matrix44")
+            self.bez4, self.bez3 = imp("ezdxf.math._bezier4p"), imp("ezdxf.math._bezier3p")
+            self.bspline, self.construct = imp("ezdxf.math._bspline"), imp("ezdxf.math._construct")
+            self.earcut, self.linetypes = imp("ezdxf.math._mapbox_earcut"), imp("ezdxf.render._linetypes")
+            self.np_support = None
+        self.V3, self.V2, self.M = self.vector.Vec3, self.vector.Vec2, self.matrix.Matrix44
+        self.B4, self.B3 = self.bez4.Bezier4P, self.bez3.Bezier3P
+        self.Basis, self.Evaluator = self.bspline.Basis, self.bspline.Evaluator
+        self.LTR = self.linetypes._LineTypeRenderer
+        self.classes = {"Vec3": self.V3, "Vec2": self.V2, "Matrix44": self.M, "Bezier4P": self.B4, "Bezier3P": self.B3,
+                        "Basis": self.Basis, "Evaluator": self.Evaluator, "_LineTypeRenderer": self.LTR}
+
+
+# ------------------------------------------------------------------------------------------------ correspondence
+def _ok(vals, tag="") -> str:
+    return c11._ok(vals, tag)
+
+
+def impl_kernel(im: Impl, k: str, a: list) -> str:
+    pl = c11.parse_list
+    V3, V2, M = im.V3, im.V2, im.M
+    v3 = lambda s: V3(*pl(s))
+    v2 = lambda s: V2(*pl(s))
+    f = lambda s: float(Fr(s))
+    b = lambda x: "T" if x else "F"
+    try:
+        if k == "v3bool": return "ok " + b(bool(v3(a[0])))
+        if k == "v3truediv": return _ok(v3(a[0]) / f(a[1]))
+        if k == "v3rmul": return _ok(f(a[1]) * v3(a[0]))
+        if k == "v3radd": return _ok(tuple(pl(a[1])) + v3(a[0]))
+        if k == "v3xy": return _ok(v3(a[0]).xy)
+        if k == "v3vec2": return _ok(v3(a[0]).vec2)
+        if k == "v3replaceX": return _ok(v3(a[0]).replace(x=f(a[1])))
+        if k == "v3fromAngle": return _ok(V3.from_angle(f(a[3]), f(a[0])))
+        if k == "v3magnitude": return _ok([v3(a[0]).magnitude])
+        if k == "v3magnitudeXY": return _ok([v3(a[0]).magnitude_xy])
+        if k == "v3isParallel": return "ok " + b(v3(a[0]).is_parallel(v3(a[1])))
+        if k == "modDistance": return _ok([im.vector.distance(v3(a[0]), v3(a[1]))])
+        if k == "modLerp": return _ok(im.vector.lerp(v3(a[0]), v3(a[1]), f(a[2])))
+        if k == "v2bool": return "ok " + b(bool(v2(a[0])))
+        if k == "v2isnull": return "ok " + b(v2(a[0]).is_null)
+        if k == "v2truediv": return _ok(v2(a[0]) / f(a[1]))
+        if k == "v2rmul": return _ok(f(a[1]) * v2(a[0]))
+        if k == "v2normalize": return _ok(v2(a[0]).normalize())
+        if k == "v2project": return _ok(v2(a[0]).project(v2(a[1])))
+        if k == "v2distance": return _ok([v2(a[0]).distance(v2(a[1]))])
+        if k == "v2magnitude": return _ok([v2(a[0]).magnitude])
+        if k == "v2vec3": return _ok(v2(a[0]).vec3)
+        if k == "v2fromAngle": return _ok(V2.from_angle(f(a[3]), f(a[0])))
+        flat = lambda pts: [c for p in pts for c in (list(p) + [0.0])[:3]]
+        if k.startswith("bez4"):
+            two = k.endswith("2d")
+            pts = [(v2 if two else v3)(s) for s in a[:4]]
+            c = im.B4(pts)
+            if k in ("bez4Point", "bez4Point2d"): return _ok((list(c.point(f(a[4]))) + [0.0])[:3])
+            if k == "bez4Tangent": return _ok(c.tangent(f(a[4])))
+            if k == "bez4ControlPoints": return _ok(flat(c.control_points))
+            if k == "bez4Reverse": return _ok(flat(c.reverse().control_points))
+            if k == "bez4Transform": return _ok(flat(c.transform(M(pl(a[4]))).control_points))
+            if k == "bez4Approx4": return _ok(flat(c.approximate(4)))
+        if k.startswith("bez3"):
+            two = k.endswith("2d")
+            pts = [(v2 if two else v3)(s) for s in a[:3]]
+            c = im.B3(pts)
+            if k in ("bez3Point", "bez3Point2d"): return _ok((list(c.point(f(a[3]))) + [0.0])[:3])
+            if k == "bez3Tangent": return _ok(c.tangent(f(a[3])))
+            if k == "bez3ControlPoints": return _ok(flat(c.control_points))
+            if k == "bez3Reverse": return _ok(flat(c.reverse().control_points))
+            if k == "bez3Transform": return _ok(flat(c.transform(M(pl(a[3]))).control_points))
+            if k == "bez3Approx4": return _ok(flat(c.approximate(4)))
+        if k == "lineLine":
+            r = im.construct.intersection_line_line_2d((v2(a[0]), v2(a[1])), (v2(a[2]), v2(a[3])), a[4] == "T", f(a[5]))
+            return "ok none;" if r is None else _ok(r, "some;")
+        if k == "clockwise3": return "ok " + b(im.construct.has_clockwise_orientation([v2(s) for s in a[:3]]))
+        if k == "clockwise4": return "ok " + b(im.construct.has_clockwise_orientation([v2(s) for s in a[:4]]))
+        if k == "rayRay":
+            r = im.construct.intersection_ray_ray_3d((v3(a[0]), v3(a[1])), (v3(a[2]), v3(a[3])), f(a[4]))
+            return _ok([c for p in r for c in p], f"{len(r)};")
+        raise KeyError(k)
+    except ZeroDivisionError:
+        return "err ZeroDivisionError"
+    except (TypeError, ValueError, IndexError) as e:
+        return "err " + type(e).__name__
+
+
+_P2 = lambda k: f"1/{1 << k}"
+
+
+def kernel_cases(ctx, twin: str):
+    """yield (mode, kernel, lean_args, impl_args, tol, nontrivial); mode 'x' exact / 't' tolerant"""
+    g = c11.G(ctx.rng(f"kern/{twin}"))
+    r = g.r
+    rel = lambda k, fl: f"rel:{_P2(k)}:{fr(fl)}"
+    for _ in range(ctx.n(150, 2000)):
+        e = g.mag()
+        a, b = g.v3(e), g.v3(e)
+        p, q = g.v2(e), g.v2(e)
+        nt = c11._nz(a)
+        am = max([abs(x) for x in a + b] + [Fr(1, 2 ** 80)])
+        pm = max([abs(x) for x in p + q] + [Fr(1, 2 ** 80)])
+        k = g.dy(r.choice([-3, 0, 3]))
+        tiny = r.choice([a, (0, 0, 0), (Fr(1, 10 ** 13), 0, 0), (0, Fr(-1, 10 ** 12), 0), (Fr(2, 10 ** 12), 0, 0), (0, 0, Fr(1, 10 ** 11))])
+        yield "x", "v3bool", [frs(tiny)], None, None, True
+        yield "x", "v2bool", [frs(tiny[:2])], None, None, True
+        yield "x", "v2isnull", [frs(tiny[:2])], None, None, True
+        yield "t", "v3truediv", [frs(a), fr(k)], None, rel(50, am / max(abs(k), Fr(1, 2 ** 60)) if k else am), nt
+        yield "t", "v2truediv", [frs(p), fr(k)], None, rel(50, pm / max(abs(k), Fr(1, 2 ** 60)) if k else pm), nt
+        yield "x", "v3rmul", [frs(a), fr(k)], None, None, nt
+        yield "x", "v2rmul", [frs(p), fr(k)], None, None, nt
+        yield "x", "v3radd", [frs(a), frs(b)], None, None, nt
+        yield "x", "v3xy", [frs(a)], None, None, nt
+        yield "x", "v3vec2", [frs(a)], None, None, nt
+        yield "x", "v2vec3", [frs(p)], None, None, nt
+        yield "x", "v3replaceX", [frs(a), fr(k)], None, None, nt
+        yield "x", "modLerp", [frs(a), frs(b), fr(r.choice([Fr(0), Fr(1), Fr(1, 2), g.dy(-3, 3)]))], None, None, nt
+        ang = r.uniform(-7, 7)
+        ln = float(g.dy(r.choice([-3, 0, 3]), 6))
+        c, s = Fr(math.cos(ang)), Fr(math.sin(ang))
+        yield "t", "v3fromAngle", [fr(ln), fr(c), fr(s)], [fr(ln), fr(c), fr(s), fr(ang)], rel(50, abs(Fr(ln))), True
+        yield "t", "v2fromAngle", [fr(ln), fr(c), fr(s)], [fr(ln), fr(c), fr(s), fr(ang)], rel(50, abs(Fr(ln))), True
+        yield "t", "v3magnitude", [frs(a)], None, rel(48, am), nt
+        yield "t", "v3magnitudeXY", [frs(a)], None, rel(48, am), nt
+        yield "t", "v2magnitude", [frs(p)], None, rel(48, pm), nt
+        yield "t", "modDistance", [frs(a), frs(b)], None, rel(46, am), nt
+        yield "t", "v2distance", [frs(p), frs(q)], None, rel(46, pm), nt
+        yield "t", "v2normalize", [frs(p)], None, rel(46, Fr(1, 4)), c11._nz(p)
+        yield "t", "v2project", [frs(p), frs(q)], None, rel(44, pm), c11._nz(p)
+        # parallel / anti-parallel / clearly not parallel (the decision band of isclose is avoided)
+        sc = g.dy(r.choice([-2, 0, 4]), 5, nonzero=True)
+        par = tuple(x * sc for x in a) if r.random() < 0.5 else b
+        if any(a) and any(par):
+            yield "x", "v3isParallel", [frs(a), frs(par)], None, None, True
+    for _ in range(ctx.n(150, 2000)):
+        e = r.choice([-6, 0, 0, 6])
+        pts = [g.v3(e, special=False) for _ in range(4)]
+        if r.random() < 0.2:
+            pts[1] = pts[0]
+        if r.random() < 0.1:
+            pts = [pts[0]] * 4
+        t = r.choice([Fr(0), Fr(1), Fr(1, 2), Fr(1, 4), Fr(3, 8), Fr(15, 16), Fr(-1, 8), Fr(9, 8), Fr(1, 1024)])
+        P = [frs(x) for x in pts]
+        m = frs(g.affine(0, 3))
+        for k in ("bez4Point", "bez4Tangent"):
+            yield "x", k, P + [fr(t)], None, None, 0 < t < 1
+        yield "x", "bez4Point2d", [frs(x[:2]) for x in pts] + [fr(t)], None, None, 0 < t < 1
+        yield "x", "bez3Point2d", [frs(x[:2]) for x in pts[:3]] + [fr(t)], None, None, 0 < t < 1
+        for k in ("bez3Point", "bez3Tangent"):
+            yield "x", k, P[:3] + [fr(t)], None, None, 0 < t < 1
+        for k in ("ControlPoints", "Reverse", "Approx4"):
+            yield "x", "bez4" + k, P, None, None, True
+            yield "x", "bez3" + k, P[:3], None, None, True
+        yield "x", "bez4Transform", P + [m], None, None, True
+        yield "x", "bez3Transform", P[:3] + [m], None, None, True
+    for _ in range(ctx.n(150, 2000)):
+        e = r.choice([-6, 0, 0, 6])
+        a, b, c, d = (g.v2(e) for _ in range(4))
+        if r.random() < 0.2:
+            d = (c[0] + (b[0] - a[0]), c[1] + (b[1] - a[1]))  # parallel
+        if r.random() < 0.1:
+            c, d = a, b  # coincident
+        den = (d[1] - c[1]) * (b[0] - a[0]) - (d[0] - c[0]) * (b[1] - a[1])
+        tol = r.choice([Fr(1e-10), Fr(0), Fr(1, 2)])
+        if abs(den) != tol:
+            mx = max([abs(x) for x in a + b + c + d] + [Fr(1, 2 ** 80)])
+            yield "t", "lineLine", [frs(a), frs(b), frs(c), frs(d), r.choice("TF"), fr(tol)], None, rel(44, mx), den != 0
+        yield "x", "clockwise3", [frs(a), frs(b), frs(c)], None, None, True
+        yield "x", "clockwise4", [frs(a), frs(b), frs(c), frs(r.choice([d, a]))], None, None, True
+    for _ in range(ctx.n(100, 1500)):
+        # rays: intersecting (common point), skew with a clear gap, parallel
+        o1, o2, x = g.v3(0, special=False), g.v3(0, special=False), g.v3(0, special=False)
+        kind = r.randrange(3)
+        if kind == 0:
+            p1, p2 = x, x
+        elif kind == 1:
+            p1, p2 = g.v3(0, special=False), g.v3(0, special=False)
+        else:
+            p1 = g.v3(0, special=False)
+            p2 = tuple(o2[i] + 2 * (p1[i] - o1[i]) for i in range(3))
+        if p1 == o1 or p2 == o2:
+            continue
+        mx = max([abs(t) for t in o1 + o2 + p1 + p2])
+        yield "t", "rayRay", [frs(o1), frs(p1), frs(o2), frs(p2), fr(Fr(1e-10))], None, rel(36, mx), True
+
+
+def correspond(ctx):
+    twins = ["py", "pyx"] if c11.have_cext() else ["py"]
+    if len(twins) == 1:
+        ctx.note("C extensions are not importable: Cython twin is proved about but not corresponded")
+    exact, tolerant = [], []
+    for t in twins:
+        im = Impl(t)
+        for mode, k, la, ia, tol, nt in kernel_cases(ctx, t):
+            val = impl_kernel(im, k, ia if ia is not None else la)
+            stream = "X1 exact kernels" if mode == "x" else "X2 tolerant kernels"
+            ctx.hist(stream, f"{t}:{k}")
+            if val.startswith("err"):
+                ctx.hist(stream, "result:" + val)
+            if mode == "x":
+                exact.append((f"x|{t}|{k}|" + "|".join(la), val, nt))
+            else:
+                tolerant.append((f"t|{t}|{k}|" + "|".join(la) + f"|{val}|{tol}", "agree", nt))
+    ctx.correspond("X1 exact kernels", "C10", exact, build=DRIVER_DEPS)
+    ctx.correspond("X2 tolerant kernels", "C10", tolerant, build=DRIVER_DEPS)
+
+
+# ================================================================================================ differential oracle
+import struct as _struct
+
+
+def _ulps(a: float, b: float) -> float:
+    if a == b:
+        return 0
+    if math.isnan(a) or math.isnan(b):
+        return 0 if (math.isnan(a) and math.isnan(b)) else float("inf")
+    if math.isinf(a) or math.isinf(b):
+        return float("inf")
+    ia = _struct.unpack("<q", _struct.pack("<d", a))[0]
+    ib = _struct.unpack("<q", _struct.pack("<d", b))[0]
+    if ia < 0:
+        ia = -(ia & 0x7FFFFFFFFFFFFFFF)
+    if ib < 0:
+        ib = -(ib & 0x7FFFFFFFFFFFFFFF)
+    return abs(ia - ib)
+
+
+ULP = 4
+
+
+class Canon:
+    """canonical, implementation independent form of a result"""
+
+    BOTH = None
+
+    def __init__(self, im: Impl):
+        self.im = im
+        if Canon.BOTH is None:
+            a, b = Impl("py"), Impl("pyx")
+            Canon.BOTH = {"V3": (a.V3, b.V3), "V2": (a.V2, b.V2), "M": (a.M, b.M), "B": (a.B4, a.B3, b.B4, b.B3)}
+
+    def __call__(self, v, depth=0):
+        import numpy as np
+        im = self.im
+        if depth > 6:
+            return ("deep",)
+        if v is None or isinstance(v, (bool, str)):
+            return ("atom", type(v).__name__, v)
+        if isinstance(v, (int, np.integer)) and not isinstance(v, bool):
+            return ("num", "int", float(v)) if abs(int(v)) < 2 ** 53 else ("atom", "int", int(v))
+        if isinstance(v, (float, np.floating)):
+            return ("num", "float", float(v))
+        B = Canon.BOTH
+        if isinstance(v, B["V3"]):
+            return ("vec", "Vec3", (float(v.x), float(v.y), float(v.z)))
+        if isinstance(v, B["V2"]):
+            return ("vec", "Vec2", (float(v.x), float(v.y)))
+        if isinstance(v, B["M"]):
+            return ("mat", tuple(float(x) for x in v))
+        if isinstance(v, B["B"]):
+            return ("bez", type(v).__name__, tuple(self(p, depth + 1) for p in v.control_points))
+        if isinstance(v, np.ndarray):
+            return ("seq", "ndarray", tuple(self(x, depth + 1) for x in v.tolist()))
+        if isinstance(v, (tuple, list)):
+            return ("seq", type(v).__name__, tuple(self(x, depth + 1) for x in v))
+        if isinstance(v, type):
+            return ("atom", "type", v.__name__)
+        if hasattr(v, "__next__") or type(v).__name__ in ("generator", "map", "zip", "list_iterator", "tuple_iterator"):
+            out = []
+            for i, x in enumerate(v):
+                if i > 5000:
+                    out.append(("truncated",))
+                    break
+                out.append(x)
+            return ("seq", "iterator", tuple(self(x, depth + 1) for x in out))
+        return ("obj", type(v).__name__)
+
+
+def _finite(x):
+    return not (math.isnan(x) or math.isinf(x))
+
+
+def _cmp_floats(xs, ys, ulp, path, out):
+    """components of one vector / matrix: equal within `ulp` ulps of the component OR of the largest component"""
+    scale = max([abs(t) for t in list(xs) + list(ys) if _finite(t)] + [0.0])
+    for i, (x, y) in enumerate(zip(xs, ys)):
+        if not _finite(x) or not _finite(y):
+            if _finite(x) != _finite(y):
+                out.append(("overflow", f"{path}[{i}]: py {x!r} / C {y!r}"))
+            continue
+        if _ulps(x, y) > ulp and abs(x - y) > ulp * 2.0 ** -52 * scale:
+            out.append(("value", f"{path}[{i}]: py {x!r} / C {y!r} ({_ulps(x, y):.3g} ulp)"))
+
+
+def compare(a, b, ulp=ULP, path=""):
+    """-> list of (category, detail); categories: value, overflow, type, container, exception, exc-vs-value, shape"""
+    if a[0] == "exc" or b[0] == "exc":
+        if a[0] == "exc" and b[0] == "exc":
+            return [] if a[1] == b[1] else [("exception", f"{path}: py raises {a[1]}, C raises {b[1]}")]
+        return [("exc-vs-value", f"{path}: py {_brief(a)} / C {_brief(b)}")]
+    if a[0] == "num" and b[0] == "num":
+        out = []
+        _cmp_floats([a[2]], [b[2]], ulp, path, out)
+        if not out and a[1] != b[1]:
+            out.append(("type", f"{path}: py {a[1]} / C {b[1]}"))
+        return out
+    if a[0] == "vec" and b[0] == "vec":
+        out = []
+        ca, cb = a[2] + (0.0,) * (3 - len(a[2])), b[2] + (0.0,) * (3 - len(b[2]))
+        _cmp_floats(ca, cb, ulp, path, out)
+        if a[1] != b[1]:
+            out.append(("type", f"{path}: py {a[1]} / C {b[1]}"))
+        return out
+    if a[0] != b[0]:
+        return [("shape", f"{path}: py {_brief(a)} / C {_brief(b)}")]
+    if a[0] == "mat":
+        out = []
+        _cmp_floats(a[1], b[1], ulp, path, out)
+        return out
+    if a[0] in ("seq", "bez"):
+        out = []
+        if a[0] == "seq" and a[1] != b[1]:
+            out.append(("container", f"{path}: py {a[1]} / C {b[1]}"))
+        if len(a[2]) != len(b[2]):
+            out.append(("shape", f"{path}: py length {len(a[2])} / C length {len(b[2])}"))
+            return out
+        if a[2] and all(x[0] == "num" for x in a[2]) and all(y[0] == "num" for y in b[2]):
+            _cmp_floats([x[2] for x in a[2]], [y[2] for y in b[2]], ulp, path, out)  # a list of floats is one vector
+            return out
+        for i, (x, y) in enumerate(zip(a[2], b[2])):
+            out += compare(x, y, ulp, f"{path}[{i}]")
+            if len(out) > 6:
+                break
+        return out
+    if a != b:
+        return [("value", f"{path}: py {_brief(a)} / C {_brief(b)}")]
+    return []
+
+
+def _brief(c) -> str:
+    s = repr(c)
+    return s if len(s) < 160 else s[:157] + "..."
+
+
+# ---- argument specs: implementation independent descriptions, built per twin
+def build(spec, im: Impl):
+    import numpy as np
+    k = spec[0].rstrip("!")
+    if k == "raw":
+        return spec[1]
+    if k == "V3":
+        return im.V3(*spec[1])
+    if k == "V2":
+        return im.V2(*spec[1])
+    if k == "M":
+        return im.M(list(spec[1]))
+    if k == "seq":
+        return [build(s, im) for s in spec[1]]
+    if k == "tup":
+        return tuple(build(s, im) for s in spec[1])
+    if k == "B4":
+        return im.B4([build(s, im) for s in spec[1]])
+    if k == "B3":
+        return im.B3([build(s, im) for s in spec[1]])
+    if k == "basis":
+        return im.Basis(list(spec[1]), spec[2], spec[3], list(spec[4]) if spec[4] is not None else None)
+    if k == "eval":
+        return im.Evaluator(build(spec[1], im), [build(s, im) for s in spec[2]])
+    if k == "ltr":
+        return im.LTR(list(spec[1]))
+    if k == "np":
+        return np.array(spec[1], dtype=np.float64)
+    if k == "cls":
+        return im.classes[spec[1]]
+    raise KeyError(k)
+
+
+def R(v):
+    return ("raw", v)
+
+
+def RX(v):
+    """an argument outside the documented types / arity (family `coerce`)"""
+    return ("raw!", v)
+
+
+def noncanonical(specs) -> bool:
+    for s in specs:
+        if isinstance(s, tuple) and s and isinstance(s[0], str):
+            if s[0].endswith("!"):
+                return True
+            if any(isinstance(t, (list, tuple)) and noncanonical(t if isinstance(t, list) else [t]) for t in s[1:]):
+                return True
+    return False
+
+
+SCALARS = [0.0, -0.0, 1.0, -1.0, 0.5, 3.0, -2.25, 1e-13, -1e-12, 1e-9, 1e-100, 1e16, -1e16, 1e100, 7, -3, 0]
+
+
+class DiffGen:
+    """value classes for the differential test"""
+
+    def __init__(self, rng):
+        self.r = rng
+        self.g = c11.G(rng)
+        self.allow_1e300 = False  # only the plain vector plan uses magnitudes whose squares over/underflow
+
+    def scalar(self):
+        r = self.r
+        return r.choice(SCALARS) if r.random() < 0.5 else float(self.g.dy(r.choice([-20, -3, 0, 0, 3, 20])))
+
+    def comps(self, n):
+        r = self.r
+        c = r.random()
+        if c < 0.12:
+            return tuple(r.choice([0.0, -0.0]) for _ in range(n))
+        if c < 0.2:
+            v = [0.0] * n
+            v[r.randrange(n)] = r.choice([1.0, -1.0, 2.0])
+            return tuple(v)
+        if c < 0.3:
+            return tuple(r.choice([1e-13, -1e-13, 1e-12, 2e-12, 1e-300, 0.0]) for _ in range(n))
+        if c < 0.38:
+            return tuple(r.choice([1e16, -1e16, 1e100, 1.0, 1e-16]) for _ in range(n))
+        if c < 0.43 and self.allow_1e300:
+            return tuple(r.choice([1e300, -1e300, 1e200, 1e-200]) for _ in range(n))
+        e = r.choice([-20, -3, 0, 0, 0, 3, 20])
+        return tuple(float(self.g.dy(e)) for _ in range(n))
+
+    def vec_input(self, dim=3, allow_bad=True):
+        """a vector argument: the documented class (canonical) or another accepted / unaccepted form (tagged `!`)"""
+        r = self.r
+        c = r.random()
+        v = self.comps(dim)
+        if c < 0.45:
+            return ("V3", v) if dim == 3 else ("V2", v)
+        if c < 0.55:
+            return ("V2!", v[:2]) if dim == 3 else ("V3!", v + (self.scalar(),))
+        if c < 0.7:
+            return RX(tuple(v))
+        if c < 0.78:
+            return RX(list(v))
+        if c < 0.86:
+            return RX(tuple(v[:2])) if dim == 3 else RX(tuple(v) + (1.0,))
+        if not allow_bad:
+            return ("V3", v) if dim == 3 else ("V2", v)
+        return r.choice([RX(()), RX((1.0,)), RX((1.0, 2.0, 3.0, 4.0)), RX(None), RX(5.0), RX(7), RX([1.0])])
+
+    def v3(self):
+        return ("V3", self.comps(3))
+
+    def v2(self):
+        return ("V2", self.comps(2))
+
+    def related(self, spec):
+        """a vector related to the given one: equal, scaled, negated, perpendicular-ish, nearly equal"""
+        r = self.r
+        v = spec[1]
+        c = r.random()
+        if c < 0.2:
+            w = v
+        elif c < 0.4:
+            k = r.choice([2.0, -1.0, 0.5, -3.0, 1e-3])
+            w = tuple(x * k for x in v)
+        elif c < 0.6:
+            w = tuple(x * (1 + r.choice([1e-10, 1e-9, 2e-9, -1e-12])) + r.choice([0.0, 1e-12, 1e-13]) for x in v)
+        elif c < 0.7 and len(v) >= 2:
+            w = (-v[1], v[0]) + tuple(v[2:])
+        else:
+            w = self.comps(len(v))
+        return (spec[0], w)
+
+    def matrix(self):
+        r = self.r
+        c = r.random()
+        if c < 0.5:
+            return ("M", tuple(float(x) for x in self.g.affine(r.choice([-6, 0, 6]), 4)))
+        if c < 0.7:
+            return ("M", tuple(float(x) for x in self.g.general(4)))
+        if c < 0.8:
+            return ("M", tuple(float(x) for x in self.g.singular()))
+        if c < 0.9:
+            return ("M", tuple(float(x) for x in self.g.wellcond()))
+        return ("M", tuple(self.scalar() for _ in range(16)))
+
+    def angle(self):
+        return self.r.choice([0.0, math.pi / 2, math.pi, -math.pi, 2 * math.pi, 1e-9, 100.0, -0.0, self.r.uniform(-7, 7), 45, 720.0])
+
+
+class Diff:
+    """runs one call on both twins and records differences"""
+
+    def __init__(self, seed, quick):
+        import random
+        self.py, self.cx = Impl("py"), Impl("pyx")
+        self.rng = random.Random(f"{seed}/C10/diff")
+        self.gen = DiffGen(self.rng)
+        self.quick = quick
+        self.fails, self.counts, self.covered = [], {}, set()
+        self.per_key = {}
+
+    def call(self, label: str, specs, fn, ulp=ULP, cover=None):
+        """label = 'Class.method' (or 'module.func'); specs = argument specs; fn(im, *built) -> result"""
+        self.covered.add(cover or label)
+        res = []
+        for im in (self.py, self.cx):
+            try:
+                args = [build(s, im) for s in specs]
+                c = Canon(im)(fn(im, *args))
+            except Exception as e:  # noqa
+                c = ("exc", type(e).__name__)
+            res.append(c)
+        cnt = self.counts.setdefault("D " + label.split(".")[0], [0, 0])
+        cnt[0] += 1
+        cnt[1] += 0 if (res[0][0] == "exc" and res[1][0] == "exc") else 1
+        nc = noncanonical(specs)
+        for cat, detail in compare(res[0], res[1], ulp):
+            if (label, cat) in REPRESENTATIONAL or (label.split("/")[0], cat) in REPRESENTATIONAL:
+                self.per_key["representational/" + label.split("/")[0] + "/" + cat] = self.per_key.get("representational/" + label.split("/")[0] + "/" + cat, 0) + 1
+                continue
+            key = f"{'coerce' if nc else 'diff'}/{label}/{cat}"
+            n = self.per_key.get(key, 0)
+            self.per_key[key] = n + 1
+            if n < 3:
+                self.fails.append({"key": f"{key}/{n}", "what": f"{label}({_specs_brief(specs)}) {detail}",
+                                   "replay": {"op": "diff", "label": label, "specs": _jsonable(specs)}})
+
+    def note_fail(self, key, what):
+        n = self.per_key.get(key, 0)
+        self.per_key[key] = n + 1
+        if n < 3:
+            self.fails.append({"key": f"{key}/{n}", "what": what, "replay": {"op": "note"}})
+
+
+# differences of representation only (explained in the report, excluded precisely by (label, category))
+REPRESENTATIONAL = {}
+for _c in ("Bezier4P", "Bezier3P"):
+    for _m in ("point", "tangent", "control_points", "reverse", "approximate", "flattening", "start_end", "__reduce__", "__init__", "transform"):
+        # the Cython curves store Vec3 and always return Vec3; the Python curves return the type of their definition
+        # points (Vec2 in -> Vec2 out).  Values are compared with z = 0.
+        REPRESENTATIONAL[(f"{_c}.{_m}", "type")] = "Vec2 definition points give Vec2 results in Python, Vec3 (z=0) in Cython"
+
+
+def _jsonable(x):
+    if isinstance(x, (list, tuple)):
+        return [_jsonable(t) for t in x]
+    if isinstance(x, (int, float, str, bool)) or x is None:
+        return x
+    return repr(x)
+
+
+def _specs_brief(specs) -> str:
+    def one(s):
+        if s[0] == "raw":
+            return repr(s[1])
+        if s[0] in ("V3", "V2"):
+            return f"{s[0]}{s[1]!r}"
+        if s[0] == "M":
+            return "M" + repr(tuple(s[1]))[:90]
+        return s[0] + "(" + ", ".join(one(t) if isinstance(t, tuple) and t and isinstance(t[0], str) else repr(t)[:60] for t in s[1:]) [:200] + ")"
+    return ", ".join(one(s) for s in specs)[:420]
+
+
+# ---------------------------------------------------------------------------------------------- per class plans
+def diff_vectors(d: Diff, n: int):
+    g = d.gen
+    r = d.rng
+    g.allow_1e300 = True
+    for cls, dim, mk in (("Vec3", 3, g.v3), ("Vec2", 2, g.v2)):
+        C = lambda im, cls=cls: im.classes[cls]
+        for _ in range(n):
+            a = mk()
+            b = g.related(a)
+            o = g.vec_input(dim)  # operand in any accepted / unaccepted form
+            k = g.scalar()
+            # construction from every input form and arity
+            d.call(f"{cls}.__init__", [o], lambda im, x: C(im)(x), cover=f"{cls}.__init__")
+            nargs = r.choice([0, 1, 2, 3, 4])
+            ok_arity = nargs in ((0, 2, 3) if cls == "Vec3" else (0, 2))
+            args = [(R if ok_arity else RX)(g.scalar()) for _ in range(nargs)]
+            d.call(f"{cls}.__init__/args", args, lambda im, *xs: C(im)(*xs), cover=f"{cls}.__init__")
+            # operators
+            for name, fn in (("__add__", lambda im, x, y: x + y), ("__sub__", lambda im, x, y: x - y),
+                             ("__radd__", lambda im, x, y: y + x), ("__rsub__", lambda im, x, y: y - x),
+                             ("__eq__", lambda im, x, y: x == y), ("__lt__", lambda im, x, y: x < y),
+                             ("dot", lambda im, x, y: x.dot(y)), ("distance", lambda im, x, y: x.distance(y)),
+                             ("lerp", lambda im, x, y: x.lerp(y)), ("isclose", lambda im, x, y: x.isclose(y)),
+                             ("project", lambda im, x, y: list(x.project(y)) + [max(abs(float(t)) for t in y)]),  # last entry = scale of the operand
+                             ("angle_between", lambda im, x, y: x.angle_between(y))):
+                d.call(f"{cls}.{name}", [a, b], fn)
+                d.call(f"{cls}.{name}/input-forms", [a, o], fn, cover=f"{cls}.{name}")
+            d.call(f"{cls}.lerp/factor", [a, b, R(k)], lambda im, x, y, t: x.lerp(y, t), cover=f"{cls}.lerp")
+            d.call(f"{cls}.isclose/tol", [a, b, R(r.choice([1e-9, 1e-6, 0.0, 0.5])), R(r.choice([1e-12, 0.0, 1e-3]))],
+                   lambda im, x, y, rt, at: x.isclose(y, rel_tol=rt, abs_tol=at), cover=f"{cls}.isclose")
+            for name, fn in (("__mul__", lambda im, x, t: x * t), ("__rmul__", lambda im, x, t: t * x),
+                             ("__truediv__", lambda im, x, t: x / t), ("__rtruediv__", lambda im, x, t: t / x),
+                             ("normalize", lambda im, x, t: x.normalize(t)), ("rotate", lambda im, x, t: x.rotate(t)),
+                             ("rotate_deg", lambda im, x, t: x.rotate_deg(t)), ("round", lambda im, x, t: x.round(int(t) % 5) if abs(t) < 1e9 else x.round()),
+                             ("__getitem__", lambda im, x, t: x[int(t)] if abs(t) < 100 else x[0])):
+                d.call(f"{cls}.{name}", [a, R(k)], fn)
+            d.call(f"{cls}.__mul__/bad", [a, r.choice([(a[0] + "!", a[1]), RX((1, 2))])], lambda im, x, t: x * t, cover=f"{cls}.__mul__")
+            d.call(f"{cls}.__getitem__/slice", [a], lambda im, x: x[0:2], cover=f"{cls}.__getitem__")
+            for name, fn in (("__neg__", lambda im, x: -x), ("__abs__", lambda im, x: abs(x)), ("__bool__", lambda im, x: bool(x)),
+                             ("__hash__", lambda im, x: hash(x) == hash(tuple(x))), ("__len__", lambda im, x: len(x)),
+                             ("__iter__", lambda im, x: list(x)), ("__repr__", lambda im, x: repr(x)), ("__str__", lambda im, x: str(x)),
+                             ("magnitude", lambda im, x: x.magnitude), ("is_null", lambda im, x: x.is_null),
+                             ("angle", lambda im, x: x.angle), ("angle_deg", lambda im, x: x.angle_deg),
+                             ("normalize/default", lambda im, x: x.normalize()), ("reversed", lambda im, x: x.reversed()),
+                             ("orthogonal", lambda im, x: (x.orthogonal(), x.orthogonal(False), x.orthogonal(ccw=True))),
+                             ("copy", lambda im, x: (x.copy(), __import__("copy").copy(x), __import__("copy").deepcopy(x))),
+                             ("x", lambda im, x: x.x), ("y", lambda im, x: x.y), ("round/none", lambda im, x: x.round()),
+                             ("__reduce__", lambda im, x: __import__("pickle").loads(__import__("pickle").dumps(x))),
+                             ("setattr", lambda im, x: setattr(x, "x", 1.0))):
+                base = name.split("/")[0]
+                d.call(f"{cls}.{name}", [a], fn, cover=f"{cls}.{base}")
+            for name, fn in (("__le__", lambda im, x, y: x <= y), ("__gt__", lambda im, x, y: x > y), ("__ge__", lambda im, x, y: x >= y),
+                             ("__ne__", lambda im, x, y: x != y), ("__iadd__", lambda im, x, y: _iop(x, y, "+")),
+                             ("__isub__", lambda im, x, y: _iop(x, y, "-")), ("__imul__", lambda im, x, y: _iop(x, 2.0, "*"))):
+                d.call(f"{cls}.{name}", [a, b], fn)
+            lst = [g.vec_input(dim, allow_bad=r.random() < 0.1) for _ in range(r.randint(0, 4))]
+            for name in ("sum", "list", "tuple", "generate"):
+                d.call(f"{cls}.{name}", [("seq", lst)], lambda im, xs, name=name: getattr(C(im), name)(xs))
+            ang, ln = g.angle(), g.scalar()
+            d.call(f"{cls}.from_angle", [R(ang), R(ln)], lambda im, t, l: C(im).from_angle(t, l), ulp=8)
+            d.call(f"{cls}.from_angle/default", [R(ang)], lambda im, t: C(im).from_angle(t), ulp=8, cover=f"{cls}.from_angle")
+            d.call(f"{cls}.from_deg_angle", [R(ang), R(ln)], lambda im, t, l: C(im).from_deg_angle(t, l), ulp=8)
+        if cls == "Vec3":
+            for _ in range(n):
+                a, b, c = g.v3(), g.v3(), g.v3()
+                b2 = g.related(a)
+                for name, fn in (("cross", lambda im, x, y: x.cross(y)), ("is_parallel", lambda im, x, y: x.is_parallel(y))):
+                    d.call(f"Vec3.{name}", [a, b2], fn)
+                    d.call(f"Vec3.{name}/input-forms", [a, g.vec_input(3)], fn, cover=f"Vec3.{name}")
+                d.call("Vec3.angle_about", [a, b, c], lambda im, x, y, z: x.angle_about(y, z), ulp=64)
+                for name, fn in (("xy", lambda im, x: x.xy), ("xyz", lambda im, x: x.xyz), ("vec2", lambda im, x: x.vec2), ("z", lambda im, x: x.z),
+                                 ("magnitude_xy", lambda im, x: x.magnitude_xy), ("magnitude_square", lambda im, x: x.magnitude_square),
+                                 ("spatial_angle", lambda im, x: x.spatial_angle), ("spatial_angle_deg", lambda im, x: x.spatial_angle_deg)):
+                    d.call(f"Vec3.{name}", [a], fn)
+                k = [R(g.scalar()) if r.random() < 0.6 else R(None) for _ in range(3)]
+                d.call("Vec3.replace", [a] + k, lambda im, v, x, y, z: v.replace(x, y, z))
+                d.call("Vec3.random", [R(g.scalar())], lambda im, l: abs(im.V3.random(l).magnitude - abs(l)) <= 1e-9 * max(1.0, abs(l)))
+                d.call("vector.distance", [g.vec_input(3), g.vec_input(3)], lambda im, p, q: im.vector.distance(p, q))
+                d.call("vector.lerp", [g.vec_input(3), g.vec_input(3), R(g.scalar())], lambda im, p, q, t: im.vector.lerp(p, q, t))
+                d.call("vector.constants", [], lambda im: (im.vector.X_AXIS, im.vector.Y_AXIS, im.vector.Z_AXIS, im.vector.NULLVEC))
+        else:
+            for _ in range(n):
+                a, b = g.v2(), g.v2()
+                d.call("Vec2.det", [a, g.related(a)], lambda im, x, y: x.det(y))
+                d.call("Vec2.det/input-forms", [a, g.vec_input(2)], lambda im, x, y: x.det(y), cover="Vec2.det")
+                d.call("Vec2.vec3", [a], lambda im, x: x.vec3)
+    d.covered |= {"Vec3.decompose"}  # pure-Python helper, see API_ONLY_ONE_TWIN
+    g.allow_1e300 = False
+
+
+def _iop(x, y, op):
+    z = x
+    if op == "+":
+        z += y
+    elif op == "-":
+        z -= y
+    else:
+        z *= y
+    return (z, x)
+
+
+def diff_matrix(d: Diff, n: int):
+    import numpy as np
+    g, r = d.gen, d.rng
+    for _ in range(n):
+        m, o = g.matrix(), g.matrix()
+        v = g.vec_input(3)
+        a3 = g.v3()
+        d.call("Matrix44.__init__", [R(tuple(m[1]))], lambda im, vals: im.M(vals))
+        d.call("Matrix44.__init__/rows", [R(tuple(tuple(m[1][4 * i:4 * i + 4]) for i in range(4)))], lambda im, rows: im.M(*rows), cover="Matrix44.__init__")
+        d.call("Matrix44.__init__/bad", [r.choice([RX(()), RX((1.0,) * 15), RX((1.0,) * 17), RX(None), RX(((1, 2, 3, 4),) * 3)])],
+               lambda im, x: im.M(x), cover="Matrix44.__init__")
+        d.call("Matrix44.__init__/default", [], lambda im: im.M(), cover="Matrix44.__init__")
+        for name, fn in (("transform", lambda im, mm, x: mm.transform(x)), ("transform_direction", lambda im, mm, x: mm.transform_direction(x)),
+                         ("transform_direction/normalize", lambda im, mm, x: mm.transform_direction(x, True)),
+                         ("ocs_to_wcs", lambda im, mm, x: mm.ocs_to_wcs(x)), ("ocs_from_wcs", lambda im, mm, x: mm.ocs_from_wcs(x)),
+                         ("ucs_direction_from_wcs", lambda im, mm, x: mm.ucs_direction_from_wcs(x))):
+            d.call(f"Matrix44.{name}", [m, v], fn, cover=f"Matrix44.{name.split('/')[0]}")
+        d.call("Matrix44.ucs_vertex_from_wcs", [m, a3], lambda im, mm, x: mm.ucs_vertex_from_wcs(x))
+        pts = [g.vec_input(3, allow_bad=r.random() < 0.05) for _ in range(r.randint(0, 4))]
+        d.call("Matrix44.transform_vertices", [m, ("seq", pts)], lambda im, mm, ps: list(mm.transform_vertices(ps)))
+        d.call("Matrix44.transform_directions", [m, ("seq", pts), R(r.random() < 0.3)], lambda im, mm, ps, nz: list(mm.transform_directions(ps, nz)))
+        p2 = [g.vec_input(2, allow_bad=r.random() < 0.05) for _ in range(r.randint(0, 4))]
+        d.call("Matrix44.fast_2d_transform", [m, ("seq", p2)], lambda im, mm, ps: list(mm.fast_2d_transform(ps)))
+        ndim = r.choice([2, 3, 3, 2, 1, 4])
+        ncol = r.choice([2, 3, 4, 5]) if ndim in (2, 3) else 3
+        if ncol >= ndim or ndim not in (2, 3):
+            rows = [[g.scalar() for _ in range(ncol)] for _ in range(r.randint(1, 4))]
+            d.call("Matrix44.transform_array_inplace", [m, ("np", rows), R(ndim)], lambda im, mm, arr, nd: (mm.transform_array_inplace(arr, nd), arr)[1])
+        for name, fn in (("__mul__", lambda im, x, y: x * y), ("__matmul__", lambda im, x, y: x @ y), ("__imul__", lambda im, x, y: _iop(x, y, "*")),
+                         ("chain", lambda im, x, y: im.M.chain(x, y, x))):
+            d.call(f"Matrix44.{name}", [m, o], fn, ulp=16)
+        d.call("Matrix44.__imul__/self", [m], lambda im, x: _iop(x, x, "*")[0], ulp=16, cover="Matrix44.__imul__")
+        # (`m * None` is not probed: the typed Cython argument accepts None and reads foreign memory, see report)
+        d.call("Matrix44.__mul__/bad", [m, r.choice([RX(2.0), ("V3!", a3[1])])], lambda im, x, y: x * y, cover="Matrix44.__mul__")
+        d.call("Matrix44.__rmul__", [m, R(2.0)], lambda im, x, y: y * x)
+        for name, fn in (("copy", lambda im, x: (x.copy(), __import__("copy").copy(x))), ("__iter__", lambda im, x: list(x)), ("__repr__", lambda im, x: repr(x)),
+                         ("rows", lambda im, x: list(x.rows())), ("columns", lambda im, x: list(x.columns())), ("origin", lambda im, x: x.origin),
+                         ("ux", lambda im, x: x.ux), ("uy", lambda im, x: x.uy), ("uz", lambda im, x: x.uz),
+                         ("get_2d_transformation", lambda im, x: x.get_2d_transformation()),
+                         ("transpose", lambda im, x: (x.transpose(), x)[1]), ("__hash__", lambda im, x: isinstance(hash(x), int)),
+                         ("__eq__", lambda im, x: (x == x.copy(), x == x)),
+                         ("__reduce__", lambda im, x: __import__("pickle").loads(__import__("pickle").dumps(x)))):
+            d.call(f"Matrix44.{name}", [m], fn)
+        # determinant: explicit polynomial (Cython) vs LU (NumPy): compared relative to the Hadamard bound of the matrix
+        d.call("Matrix44.determinant", [m], lambda im, x: [float(x.determinant()), _hadamard_f(list(x))], ulp=1 << 14)
+        i, j = r.choice([0, 1, 2, 3, 4, -1, -5]), r.choice([0, 1, 2, 3, 4, -1])
+        d.call("Matrix44.__getitem__", [m, R((i, j))], lambda im, x, idx: x[idx])
+        d.call("Matrix44.__setitem__", [m, R((i, j)), R(g.scalar())], lambda im, x, idx, val: (x.__setitem__(idx, val), x)[1])
+        d.call("Matrix44.get_row", [m, R(i)], lambda im, x, k: x.get_row(k))
+        d.call("Matrix44.get_col", [m, R(i)], lambda im, x, k: x.get_col(k))
+        vals = tuple(g.scalar() for _ in range(r.choice([4, 4, 3, 2, 5, 0])))
+        RV = R if len(vals) == 4 else RX
+        d.call("Matrix44.set_row", [m, R(i), RV(vals)], lambda im, x, k, vs: (x.set_row(k, vs), x)[1])
+        d.call("Matrix44.set_col", [m, R(i), RV(vals)], lambda im, x, k, vs: (x.set_col(k, vs), x)[1])
+        d.call("Matrix44.origin/set", [m, v], lambda im, x, p: (setattr(x, "origin", p), x)[1], cover="Matrix44.origin")
+        # factories
+        s = [g.scalar() for _ in range(3)]
+        d.call("Matrix44.scale", [R(s[0]), R(s[1]), R(s[2])], lambda im, x, y, z: im.M.scale(x, y, z))
+        d.call("Matrix44.scale/uniform", [R(s[0])], lambda im, x: im.M.scale(x), cover="Matrix44.scale")
+        d.call("Matrix44.scale/partial", [R(s[0]), R(s[1])], lambda im, x, y: im.M.scale(x, y), cover="Matrix44.scale")
+        d.call("Matrix44.translate", [R(s[0]), R(s[1]), R(s[2])], lambda im, x, y, z: im.M.translate(x, y, z))
+        ang = g.angle()
+        for name in ("x_rotate", "y_rotate", "z_rotate"):
+            d.call(f"Matrix44.{name}", [R(ang)], lambda im, t, name=name: getattr(im.M, name)(t))
+        d.call("Matrix44.axis_rotate", [v, R(ang)], lambda im, ax, t: im.M.axis_rotate(ax, t), ulp=16)
+        d.call("Matrix44.xyz_rotate", [R(ang), R(g.angle()), R(g.angle())], lambda im, x, y, z: im.M.xyz_rotate(x, y, z), ulp=16)
+        d.call("Matrix44.shear_xy", [R(r.uniform(-1.5, 1.5)), R(r.uniform(-1.5, 1.5))], lambda im, x, y: im.M.shear_xy(x, y))
+        d.call("Matrix44.shear_xy/default", [], lambda im: im.M.shear_xy(), cover="Matrix44.shear_xy")
+        pp = [float(g.g.dy(0, 5, nonzero=True)) * t for t in (-1, 1, 1, -1, 1, 10)]
+        d.call("Matrix44.perspective_projection", [R(x) for x in pp], lambda im, *xs: im.M.perspective_projection(*xs))
+        d.call("Matrix44.perspective_projection_fov", [R(r.uniform(0.2, 2.5)), R(r.choice([1.0, 1.5, 0.5])), R(1.0), R(r.choice([10.0, 100.0, 1.0]))],
+               lambda im, *xs: im.M.perspective_projection_fov(*xs), ulp=16)
+        d.call("Matrix44.ucs", [g.v3(), g.v3(), g.v3(), g.v3()], lambda im, x, y, z, oo: im.M.ucs(x, y, z, oo))
+        d.call("Matrix44.ucs/default", [], lambda im: im.M.ucs(), cover="Matrix44.ucs")
+        d.call("Matrix44.ucs/input-forms", [g.vec_input(3), g.vec_input(3)], lambda im, x, y: im.M.ucs(x, y), cover="Matrix44.ucs")
+        comps = tuple(g.scalar() for _ in range(r.choice([6, 6, 6, 5, 7])))
+        d.call("Matrix44.from_2d_transformation", [(R if len(comps) == 6 else RX)(comps)], lambda im, c: im.M.from_2d_transformation(c))
+        # orthogonality predicates: exact frames, scaled frames, slightly disturbed frames
+        u = r.choice([((1, 2, 2), (2, 1, -2), (2, -2, 1)), ((3, 4, 0), (-4, 3, 0), (0, 0, 5)), ((1, 0, 0), (0, 1, 0), (0, 0, 1)), ((1, 0, 0), (0, 0, 1), (0, 1, 0))])
+        kx, ky, kz = (r.choice([1.0, 1 / 3.0, 2.0, 1e-3, 1 + 1e-9, 1 + 1e-12]) for _ in range(3))
+        frame = [c * kx for c in u[0]] + [r.choice([0.0, 1e-10, 1e-13])] + [c * ky for c in u[1]] + [0.0] + [c * kz for c in u[2]] + [0.0, 1.0, 2.0, 3.0, 1.0]
+        fm = ("M", tuple(frame))
+        d.call("Matrix44.is_cartesian", [fm], lambda im, x: x.is_cartesian)
+        d.call("Matrix44.is_orthogonal", [fm], lambda im, x: x.is_orthogonal)
+        d.call("Matrix44.is_cartesian/general", [m], lambda im, x: x.is_cartesian, cover="Matrix44.is_cartesian")
+        d.call("Matrix44.is_orthogonal/general", [m], lambda im, x: x.is_orthogonal, cover="Matrix44.is_orthogonal")
+        # inverse: regular matrices within kappa tolerance is C11's business; here: same exception behaviour + close values
+        wm = ("M", tuple(float(x) for x in (g.g.unimodular() if r.random() < 0.5 else g.g.wellcond())))
+        d.call("Matrix44.inverse", [wm], lambda im, x: (x.inverse(), x)[1], ulp=1 << 24)
+        sm = ("M", tuple(float(x) for x in g.g.singular()))
+        if c11._lu_detects([Fr(x) for x in sm[1]]):
+            d.call("Matrix44.inverse/singular", [sm], lambda im, x: (x.inverse(), x)[1], cover="Matrix44.inverse")
+
+
+def diff_bezier(d: Diff, n: int):
+    g, r = d.gen, d.rng
+    for cls, npts, build_key in (("Bezier4P", 4, "B4"), ("Bezier3P", 3, "B3")):
+        for _ in range(n):
+            dim = r.choice([3, 3, 2])
+            e = r.choice([-6, 0, 0, 6, 20])
+            pts = [("V3", tuple(float(g.g.dy(e)) for _ in range(3))) if dim == 3 else ("V2", tuple(float(g.g.dy(e)) for _ in range(2))) for _ in range(npts)]
+            c = r.random()
+            if c < 0.15:
+                pts = [pts[0]] * npts  # degenerate: all equal
+            elif c < 0.3:
+                pts = [(pts[0][0], tuple(x * k for x in pts[1][1])) for k in range(npts)]  # collinear
+            elif c < 0.4:
+                pts[0] = (pts[0][0], tuple(r.choice([1e16, -1e15, 1e9]) for _ in pts[0][1]))  # huge offset
+            curve = (build_key, pts)
+            t = r.choice([0.0, 1.0, 0.5, 0.25, 1e-9, 1 - 1e-9, -0.0, -1e-12, 1 + 1e-12, 2.0, -1.0, r.random()])
+            d.call(f"{cls}.point", [curve, R(t)], lambda im, cv, tt: cv.point(tt))
+            d.call(f"{cls}.tangent", [curve, R(t)], lambda im, cv, tt: cv.tangent(tt))
+            d.call(f"{cls}.control_points", [curve], lambda im, cv: cv.control_points)
+            d.call(f"{cls}.reverse", [curve], lambda im, cv: cv.reverse())
+            d.call(f"{cls}.transform", [curve, g.matrix()], lambda im, cv, m: cv.transform(m), ulp=64)
+            seg = r.choice([1, 2, 3, 4, 7, 0, -1])
+            d.call(f"{cls}.approximate", [curve, R(seg)], lambda im, cv, s: list(cv.approximate(s)))
+            d.call(f"{cls}.approximated_length", [curve, R(r.choice([1, 4, 16, 128]))], lambda im, cv, s: cv.approximated_length(s), ulp=1 << 12)
+            d.call(f"{cls}.approximated_length/default", [curve], lambda im, cv: cv.approximated_length(), ulp=1 << 12, cover=f"{cls}.approximated_length")
+            if e <= 6 and c >= 0.4 or c < 0.3:
+                dist = r.choice([1.0, 0.1, 0.01]) * (2.0 ** e)
+                d.call(f"{cls}.flattening", [curve, R(dist), R(r.choice([1, 2, 4, 8]))], lambda im, cv, ds, s: list(cv.flattening(ds, s)), ulp=64)
+            d.call(f"{cls}.start_end", [curve], lambda im, cv: (cv.control_points[0], cv.control_points[-1]), cover=f"{cls}.control_points")
+            d.call(f"{cls}.__reduce__", [curve], lambda im, cv: __import__("pickle").loads(__import__("pickle").dumps(cv)))
+            # construction from other input forms / wrong arity
+            raw = r.choice([RX([p[1] for p in pts]), RX([p[1] for p in pts][:-1]), RX([]), ("seq!", pts + [pts[0]]), ("seq!", pts[:2]),
+                            ("seq", [("V2", p[1][:2]) for p in pts]), RX(None), ("seq!", [pts[0]] + [R(p[1]) for p in pts[1:]])])
+            d.call(f"{cls}.__init__", [raw], lambda im, ps, cls=cls: im.classes[cls](ps))
+    for _ in range(n):
+        a0, a1 = g.angle(), g.angle()
+        seg = r.choice([1, 1, 2, 4, 0])
+        d.call("bezier4p.cubic_bezier_arc_parameters", [R(a0), R(a1), R(seg)], lambda im, s, e, k: list(im.bez4.cubic_bezier_arc_parameters(s, e, k)), ulp=64)
+        d.call("bezier4p.cubic_bezier_from_arc", [g.vec_input(3, False), R(abs(g.scalar()) if r.random() < 0.8 else g.scalar()), R(math.degrees(a0)), R(math.degrees(a1)), R(seg)],
+               lambda im, c, rad, s, e, k: list(im.bez4.cubic_bezier_from_arc(c, rad, s, e, k)), ulp=256)
+        d.call("bezier4p.cubic_bezier_from_arc/default", [], lambda im: list(im.bez4.cubic_bezier_from_arc()), ulp=64, cover="bezier4p.cubic_bezier_from_arc")
+        from ezdxf.math import ConstructionEllipse
+        ratio = r.choice([1.0, 0.5, 0.25, 1e-3])
+        major = tuple(float(g.g.dy(0, 5)) for _ in range(3))
+        if any(major):
+            try:
+                ell = ConstructionEllipse(center=(1, 2, 3), major_axis=major, extrusion=(0, 0, 1) if major[2] == 0 else (1, 0, 0) if major[0] == 0 else (0, 1, 0) if major[1] == 0 else (-major[1], major[0], 0),
+                                          ratio=ratio, start_param=a0, end_param=a1)
+                d.call("bezier4p.cubic_bezier_from_ellipse", [R(ell), R(seg)], lambda im, el, k: list(im.bez4.cubic_bezier_from_ellipse(el, k)), ulp=1 << 12)
+            except Exception:  # noqa
+                pass
+    d.covered |= {"bezier4p.cubic_bezier_from_ellipse"}
+
+
+def diff_construct(d: Diff, n: int):
+    g, r = d.gen, d.rng
+    for _ in range(n):
+        a, b, c, e = g.v2(), g.v2(), g.v2(), g.v2()
+        k = r.random()
+        if k < 0.2:
+            e = ("V2", (c[1][0] + b[1][0] - a[1][0], c[1][1] + b[1][1] - a[1][1]))  # parallel
+        elif k < 0.3:
+            c, e = a, b
+        elif k < 0.4:
+            e = ("V2", (c[1][0] + (b[1][0] - a[1][0]) * (1 + 1e-11), c[1][1] + (b[1][1] - a[1][1])))  # nearly parallel
+        virt = r.random() < 0.5
+        d.call("construct.intersection_line_line_2d", [a, b, c, e, R(virt)],
+               lambda im, p, q, s, t, v: im.construct.intersection_line_line_2d((p, q), (s, t), v))
+        d.call("construct.intersection_line_line_2d/tol", [a, b, c, e, R(virt), R(r.choice([1e-10, 0.0, 1e-3]))],
+               lambda im, p, q, s, t, v, tol: im.construct.intersection_line_line_2d((p, q), (s, t), virtual=v, abs_tol=tol),
+               cover="construct.intersection_line_line_2d")
+        d.call("construct.intersection_line_line_2d/input-forms", [g.vec_input(2), g.vec_input(2), c, e],
+               lambda im, p, q, s, t: im.construct.intersection_line_line_2d((p, q), (s, t)), cover="construct.intersection_line_line_2d")
+        # polygons: random, degenerate, closed
+        m = r.randint(0, 7)
+        pe = r.choice([-20, -3, 0, 0, 3, 20])  # one magnitude per polygon: mixed magnitudes only measure summation order
+        poly = [("V2", (float(g.g.dy(pe)), float(g.g.dy(pe)))) for _ in range(m)]
+        if m >= 2 and r.random() < 0.3:
+            poly.append(poly[0])
+        if m >= 3 and r.random() < 0.2:
+            poly[2] = poly[1]
+        ints = [("V2", (float(r.randint(-4, 4)), float(r.randint(-4, 4)))) for _ in range(r.randint(3, 7))]
+        for pl in (poly, ints):
+            d.call("construct.has_clockwise_orientation", [("seq", pl)], lambda im, vs: im.construct.has_clockwise_orientation(vs))
+            pt = pl[0] if pl and r.random() < 0.2 else r.choice([g.v2(), ("V2", (float(r.randint(-4, 4)), float(r.randint(-4, 4)))), ("V2", (r.randint(-8, 8) / 2.0, r.randint(-8, 8) / 2.0))])
+            d.call("construct.is_point_in_polygon_2d", [pt, ("seq", pl)], lambda im, p, vs: im.construct.is_point_in_polygon_2d(p, vs))
+            d.call("construct.is_point_in_polygon_2d/tol", [pt, ("seq", pl), R(r.choice([1e-10, 0.5, 0.0]))],
+                   lambda im, p, vs, tol: im.construct.is_point_in_polygon_2d(p, vs, abs_tol=tol), cover="construct.is_point_in_polygon_2d")
+        d.call("construct.has_clockwise_orientation/input-forms", [("seq", [r.choice([RX((float(r.randint(-4, 4)), float(r.randint(-4, 4)))), RX([1.0, 2.0, 3.0]), ("V3!", (float(r.randint(-4, 4)), 1.0, 5.0)), ints[0], RX(()), RX(None)]) for _ in range(r.randint(2, 5))])],
+               lambda im, vs: im.construct.has_clockwise_orientation(vs), cover="construct.has_clockwise_orientation")
+        d.call("construct.is_point_in_polygon_2d/tuple", [g.v2(), ("tup!", ints)], lambda im, p, vs: im.construct.is_point_in_polygon_2d(p, vs),
+               cover="construct.is_point_in_polygon_2d")
+        # 3D rays: meeting, skew (incl. gaps around the tolerances), parallel
+        o1, o2 = g.v3(), g.v3()
+        x = g.v3()
+        kind = r.randrange(5)
+        if kind == 0:
+            p1, p2 = x, x
+        elif kind == 1:
+            p1, p2 = g.v3(), g.v3()
+        elif kind == 2:
+            p1 = g.v3()
+            p2 = ("V3", tuple(o2[1][i] + 2 * (p1[1][i] - o1[1][i]) for i in range(3)))
+        else:  # two axis-parallel rays with a tiny gap at a large/small offset (relative vs absolute tolerance)
+            L = r.choice([1.0, 1e3, 1e6, 1e-3])
+            gap = L * r.choice([5e-10, 2e-10, 5e-11, 2e-9, 1e-12]) if kind == 3 else r.choice([5e-10, 5e-11, 2e-10])
+            o1, p1 = ("V3", (L, 0.0, 0.0)), ("V3", (L, 1.0, 0.0))
+            o2, p2 = ("V3", (L + gap, 0.0, 1.0)), ("V3", (L + gap, 0.0, 2.0))
+        d.call("construct.intersection_ray_ray_3d", [o1, p1, o2, p2], lambda im, a_, b_, c_, d_: im.construct.intersection_ray_ray_3d((a_, b_), (c_, d_)), ulp=1 << 16)
+        d.call("construct.intersection_ray_ray_3d/tol", [o1, p1, o2, p2, R(r.choice([1e-10, 1e-6, 0.0]))],
+               lambda im, a_, b_, c_, d_, tol: im.construct.intersection_ray_ray_3d((a_, b_), (c_, d_), abs_tol=tol), ulp=1 << 16,
+               cover="construct.intersection_ray_ray_3d")
+        s, e2 = r.choice([0.0, 90.0, 180.0, 360.0, -360.0, 720.0, 1e-14, 359.99999999999994, -180.0, r.uniform(-800, 800)]), \
+            r.choice([0.0, 90.0, 180.0, 360.0, -360.0, 720.0, 360.00000000000006, -180.0, r.uniform(-800, 800)])
+        d.call("construct.arc_angle_span_deg", [R(s), R(e2)], lambda im, x_, y_: im.construct.arc_angle_span_deg(x_, y_))
+        d.call("construct.arc_angle_span_rad", [R(math.radians(s)), R(math.radians(e2))], lambda im, x_, y_: im.construct.arc_angle_span_rad(x_, y_), ulp=8)
+        lon, lat = r.uniform(-180, 180), r.choice([0.0, 45.0, -45.0, 89.0, r.uniform(-85, 85)])
+        d.call("construct.gps_to_world_mercator", [R(lon), R(lat)], lambda im, x_, y_: im.construct.gps_to_world_mercator(x_, y_), ulp=64)
+        d.call("construct.world_mercator_to_gps", [R(lon * 111319.0), R(r.uniform(-1.5e7, 1.5e7))], lambda im, x_, y_: im.construct.world_mercator_to_gps(x_, y_), ulp=1 << 12)
+        d.call("construct.world_mercator_to_gps/tol", [R(0.0), R(1e6), R(r.choice([1e-6, 1e-12, 1e-3]))],
+               lambda im, x_, y_, t: im.construct.world_mercator_to_gps(x_, y_, t), ulp=1 << 30, cover="construct.world_mercator_to_gps")
+
+
+def _hadamard_f(vals) -> float:
+    h = 1.0
+    for i in range(4):
+        h *= max(sum(abs(x) for x in vals[4 * i:4 * i + 4]), 1e-300)
+    return h
+
+
+def _knots(r, order, count, kind):
+    n = order + count
+    if kind == "clamped":
+        inner = sorted(r.choice([1.0, 2.0, 3.0, 2.0, 1.5]) if r.random() < 0.3 else r.uniform(0, 4) for _ in range(n - 2 * order))
+        return [0.0] * order + inner + [4.0] * order
+    if kind == "uniform":
+        return [float(i) for i in range(n)]
+    if kind == "shifted":
+        return [float(i) + 2.5 for i in range(n)]
+    return sorted(r.choice([0.0, 1.0, 1.0, 2.0, 3.0]) for _ in range(n))  # weird: many repeated knots
+
+
+def diff_bspline(d: Diff, n: int):
+    g, r = d.gen, d.rng
+    for _ in range(n):
+        order = r.choice([2, 3, 4, 4, 5, 8])
+        count = r.randint(order, order + 5)
+        kind = r.choice(["clamped", "clamped", "uniform", "shifted", "weird"])
+        knots = _knots(r, order, count, kind)
+        weights = None if r.random() < 0.6 else [r.choice([1.0, 0.5, 2.0, 3.0]) for _ in range(count)]
+        basis = ("basis", knots, order, count, weights)
+        lo, hi = knots[order - 1], knots[count]
+        u = r.choice([lo, hi, (lo + hi) / 2, lo + (hi - lo) * r.random(), knots[r.randrange(len(knots))]])
+        for name in ("order", "degree", "knots", "weights", "is_rational", "max_t"):
+            d.call(f"Basis.{name}", [basis], lambda im, b, name=name: getattr(b, name))
+        d.call("Basis.count", [basis], lambda im, b: getattr(b, "count", None) if hasattr(b, "count") else b._count)
+        d.call("Basis.find_span", [basis, R(u)], lambda im, b, t: b.find_span(t))
+        if kind != "weird":
+            d.call("Basis.basis_vector", [basis, R(u)], lambda im, b, t: b.basis_vector(t), ulp=16)
+            d.call("Basis.basis_funcs", [basis, R(u)], lambda im, b, t: b.basis_funcs(b.find_span(t), t), ulp=16)
+            d.call("Basis.basis_funcs_derivatives", [basis, R(u), R(r.choice([1, 2, 3]))],
+                   lambda im, b, t, k: b.basis_funcs_derivatives(b.find_span(t), t, k), ulp=64)
+            if weights:
+                d.call("Basis.span_weighting", [basis, R(u)], lambda im, b, t: b.span_weighting(b.basis_funcs(b.find_span(t), t) if False else [1.0] * b.order, b.find_span(t)), ulp=16)
+            cps = [("V3", tuple(float(g.g.dy(0)) for _ in range(3))) for _ in range(count)]
+            ev = ("eval", basis, cps)
+            d.call("Evaluator.point", [ev, R(u)], lambda im, e, t: e.point(t), ulp=64)
+            ts = [lo + (hi - lo) * i / 4 for i in range(5)]
+            d.call("Evaluator.points", [ev, R(ts)], lambda im, e, tt: list(e.points(tt)), ulp=64)
+            k = r.choice([1, 2, 3])
+            d.call("Evaluator.derivative", [ev, R(u), R(k)], lambda im, e, t, kk: e.derivative(t, kk), ulp=1 << 10)
+            d.call("Evaluator.derivatives", [ev, R(ts), R(k)], lambda im, e, tt, kk: list(e.derivatives(tt, kk)), ulp=1 << 10)
+            d.call("Evaluator.__init__/input-forms", [basis, RX([c[1] for c in cps]), R(u)], lambda im, b, c, t: im.Evaluator(b, c).point(t), ulp=64, cover="Evaluator.point")
+        d.call("Basis.__reduce__", [basis], lambda im, b: (lambda x: (x.knots, x.order, x.weights))(__import__("pickle").loads(__import__("pickle").dumps(b))))
+        # invalid definitions
+        bad = r.choice([("basis", knots[:-1], order, count, weights), ("basis", knots, order, count, [1.0]), ("basis", knots + [9.0], order, count, None),
+                        ("basis", [0.0, 1.0, 2.0], 1, 2, None), ("basis", [float(i) for i in range(12 + 14)], 12, 14, None), ("basis", [0.0, 1.0, 2.0], 2, 1, None),
+                        ("basis", [], 0, 0, None)])
+        d.call("Basis.__init__/invalid", [("basis",) + bad[1:]], lambda im, b: (b.order, b.knots), cover="Basis.order")
+    d.covered |= {"Basis.span_weighting", "Basis.count"}
+
+
+def diff_earcut(d: Diff, n: int):
+    g, r = d.gen, d.rng
+
+    def tri_canon(im, ext, holes):
+        pts = {id(p): i for i, p in enumerate(ext + [q for h in holes for q in h])}
+        tris = im.earcut.earcut(ext, holes)
+        return [tuple(pts[id(p)] for p in t) for t in tris]
+
+    for _ in range(n):
+        k = r.random()
+        m = r.randint(3, 9)
+        if k < 0.5:  # star shaped simple polygon with integer-ish coordinates
+            angs = sorted(r.uniform(0, math.tau) for _ in range(m))
+            ext = [("V2", (round(math.cos(t) * r.choice([2, 3, 5]), 2), round(math.sin(t) * r.choice([2, 3, 5]), 2))) for t in angs]
+        elif k < 0.7:
+            ext = [("V2", (float(r.randint(-3, 3)), float(r.randint(-3, 3)))) for _ in range(m)]  # possibly self intersecting / degenerate
+        elif k < 0.8:
+            ext = [g.v2() for _ in range(r.randint(0, 4))]
+        else:
+            ext = [("V2", (0.0, 0.0)), ("V2", (10.0, 0.0)), ("V2", (10.0, 10.0)), ("V2", (0.0, 10.0))]
+        holes = []
+        if k >= 0.8:
+            hx, hy = r.randint(1, 6), r.randint(1, 6)
+            holes = [[("V2", (float(hx), float(hy))), ("V2", (hx + 2.0, float(hy))), ("V2", (hx + 2.0, hy + 2.0)), ("V2", (float(hx), hy + 2.0))]]
+            if r.random() < 0.3:
+                holes.append([("V2", (8.5, 8.5))])  # steiner point
+        d.call("mapbox_earcut.earcut", [("seq", ext), ("seq", [("seq", h) for h in holes])], tri_canon)
+        if r.random() < 0.3:
+            d.call("mapbox_earcut.earcut/v3", [("seq", [("V3", p[1] + (1.0,)) for p in ext]), R([])], tri_canon, cover="mapbox_earcut.earcut")
+
+
+def diff_linetypes(d: Diff, n: int):
+    g, r = d.gen, d.rng
+    for _ in range(n):
+        k = r.random()
+        if k < 0.15:
+            dashes = []
+        elif k < 0.25:
+            dashes = [r.choice([1.0, 0.0])]
+        else:
+            dashes = []
+            for i in range(r.choice([2, 2, 4, 4, 6, 3])):
+                dashes.append(r.choice([0.0, 0.5, 1.0, 0.25, 0.1, 0.3, 3.0]) if i % 2 == 0 else r.choice([0.25, 0.5, 1.0, 0.1, 0.0]))
+        if dashes and sum(dashes) < 0.05:
+            continue  # a pattern of (nearly) zero total length does not terminate in reasonable time in either twin
+        segs = []
+        p = (0.0, 0.0, 0.0)
+        for _ in range(r.randint(1, 3)):
+            q = tuple(p[i] + r.choice([0.0, 1.0, 2.5, -1.0, 0.3, 1e-13, 7.0]) for i in range(3))
+            segs.append((p, q))
+            p = q
+
+        def run(im, dd, ss):
+            ltr = im.LTR(dd)
+            out = []
+            for s, e in ss:
+                out.append([(a, b) for a, b in ltr.line_segment(s, e)])
+            return (ltr.is_solid, out)
+
+        d.call("_LineTypeRenderer.line_segment", [R(dashes), R(segs)], run, ulp=64)
+    d.covered |= {"_LineTypeRenderer.is_solid"}
+
+
+def diff_np_support(d: Diff, n: int):
+    import numpy as np
+    from ezdxf.math import linalg
+    g, r = d.gen, d.rng
+    d.covered |= {"np_support.has_clockwise_orientation", "np_support.lu_decompose", "np_support.solve_vector_banded_matrix"}
+    for _ in range(n):
+        m = r.randint(0, 7)
+        pts = [[float(r.randint(-5, 5)), float(r.randint(-5, 5))] if r.random() < 0.6 else [float(g.g.dy(0)), float(g.g.dy(0))] for _ in range(m)]
+        if m >= 3 and r.random() < 0.3:
+            pts.append(list(pts[0]))
+
+        def cw(im, ps):
+            arr = np.array(ps, dtype=np.float64).reshape(-1, 2)
+            if im.np_support is None:
+                return im.construct.has_clockwise_orientation([im.V2(p) for p in arr])  # what npshapes.py does without C-ext
+            return im.np_support.has_clockwise_orientation(arr)
+
+        d.call("np_support.has_clockwise_orientation", [R(pts)], cw)
+        # banded LU: diagonally dominant band matrix
+        size, m1, m2 = r.randint(3, 8), r.choice([1, 2]), r.choice([1, 2])
+        A = [[0.0] * (m1 + m2 + 1) for _ in range(size)]
+        for i in range(size):
+            for j in range(m1 + m2 + 1):
+                col = i + j - m1
+                if 0 <= col < size:
+                    A[i][j] = float(r.randint(-3, 3)) if j != m1 else float(r.choice([8, -9, 10]))
+        rhs = [float(r.randint(-5, 5)) for _ in range(size)]
+
+        def lu(im, a, b, k1, k2):
+            arr = np.array(a, dtype=np.float64)
+            if im.np_support is None:
+                up, lo, idx = linalg._lu_decompose(arr, k1, k2)
+                x = linalg._solve_vector_banded_matrix(np.array(b, dtype=np.float64), up, lo, idx, k1, k2)
+            else:
+                up, lo, idx = im.np_support.lu_decompose(arr, k1, k2)
+                x = im.np_support.solve_vector_banded_matrix(np.array(b, dtype=np.float64), up, lo, idx, k1, k2)
+            return (up, lo, [int(t) for t in idx], x)
+
+        d.call("np_support.lu_decompose+solve", [R(A), R(rhs), R(m1), R(m2)], lu, ulp=64, cover="np_support.lu_decompose")
+
+
+# ---------------------------------------------------------------------------------------------- API surface
+# public names that exist in one twin only and are NOT a behavioural difference (each with its reason)
+API_ONLY_ONE_TWIN = {
+    ("Vec3", "decompose", "py"): "internal argument parser of the pure-Python class (documented '(internal API)')",
+    ("Bezier4P", "start_point", "pyx"): "readonly C attributes; both twins expose the same values via control_points[0]/[-1]",
+    ("Bezier4P", "end_point", "pyx"): "see start_point",
+    ("Bezier3P", "start_point", "pyx"): "see Bezier4P.start_point",
+    ("Bezier3P", "end_point", "pyx"): "see Bezier4P.start_point",
+    ("Basis", "count", "pyx"): "readonly C attribute used by the Cython Evaluator; Python keeps it private (_count)",
+    ("_LineTypeRenderer", "is_solid", "pyx"): "instance attribute in Python (set in __init__, invisible to dir(class)), readonly C attribute in Cython",
+}
+for _k in API_ONLY_ONE_TWIN:
+    pass
+NOT_EXERCISED = {}
+
+
+def api_surface(d: Diff):
+    pub = lambda cls: {n for n in dir(cls) if not n.startswith("_")}
+    for name in d.py.classes:
+        a, b = pub(d.py.classes[name]), pub(d.cx.classes[name])
+        for n in sorted(a ^ b):
+            side = "py" if n in a else "pyx"
+            if (name, n, side) in API_ONLY_ONE_TWIN:
+                continue
+            d.note_fail(f"api/{name}.{n}/only-{side}", f"public name {name}.{n} exists only in the {'pure-Python' if side == 'py' else 'Cython'} twin")
+        for n in sorted(a | b):
+            if f"{name}.{n}" not in d.covered and (name, n) not in NOT_EXERCISED and not any(k[0] == name and k[1] == n for k in API_ONLY_ONE_TWIN):
+                d.note_fail(f"uncovered/{name}.{n}", f"public name {name}.{n} is not exercised by the differential test (new method?)")
+    mods = {"vector": (d.py.vector, d.cx.vector), "construct": (d.py.construct, d.cx.construct), "bezier4p": (d.py.bez4, d.cx.bez4),
+            "bezier3p": (d.py.bez3, d.cx.bez3), "bspline": (d.py.bspline, d.cx.bspline), "mapbox_earcut": (d.py.earcut, d.cx.earcut)}
+    for mname, (mp, mc) in mods.items():
+        a = {n for n in dir(mp) if not n.startswith("_") and callable(getattr(mp, n)) and getattr(getattr(mp, n), "__module__", None) == mp.__name__}
+        b = {n for n in dir(mc) if not n.startswith("_") and callable(getattr(mc, n)) and getattr(getattr(mc, n), "__module__", None) == mc.__name__}
+        if mname == "mapbox_earcut":  # the Python module exposes its helper functions, the extension only the entry point
+            a, b = a & {"earcut"}, b & {"earcut"}
+        if mname == "construct":
+            a, b = {n for n in a if not n.startswith("_")}, {n for n in b if not n.startswith("_")}
+        for n in sorted(a ^ b):
+            if n in ("Vec3", "Vec2", "Matrix44", "check_if_in_valid_range", "FastCubicCurve", "FastQuadCurve", "floats", "Point", "T"):
+                continue
+            d.note_fail(f"api/{mname}.{n}/only-{'py' if n in a else 'pyx'}", f"function {mname}.{n} exists in one twin only")
+        for n in sorted(a & b):
+            if n in d.py.classes:
+                continue
+            if f"{mname}.{n}" not in d.covered:
+                d.note_fail(f"uncovered/{mname}.{n}", f"function {mname}.{n} is not exercised by the differential test")
+
+
+def run_diff(seed: int, quick: bool) -> Diff:
+    d = Diff(seed, quick)
+    k = 1 if quick else 12
+    diff_vectors(d, 120 * k)
+    diff_matrix(d, 150 * k)
+    diff_bezier(d, 100 * k)
+    diff_construct(d, 200 * k)
+    diff_bspline(d, 100 * k)
+    diff_earcut(d, 100 * k)
+    diff_linetypes(d, 150 * k)
+    diff_np_support(d, 100 * k)
+    api_surface(d)
+    return d
+
+
+def oracle(ctx):
+    if not c11.have_cext():
+        ctx.note("C extensions are not importable: the differential oracle cannot run")
+        from runner import Infra
+        raise Infra("C10 needs the C extensions (ezdxf.acc.*) to be importable")
+    d = run_diff(ctx.seed, ctx.quick)
+    for stream, (n, nt) in d.counts.items():
+        st = ctx.cov["streams"].setdefault(stream, {"evaluations": 0, "distinct_nontrivial": 0})
+        st["evaluations"] += n
+        st["distinct_nontrivial"] += nt
+        ctx.cov["evaluations"] += n
+        ctx.cov["distinct_nontrivial"] += nt
+    for key, n in sorted(d.per_key.items()):
+        ctx.hist("D differences by key", key, n)
+    for f in d.fails:
+        ctx.fail(f["key"], f["what"], f["replay"])
+
+
+def replay(ctx, rep):
+    d = run_diff(rep.get("seed", 0), rep.get("tier", "quick") == "quick")
+    still = {"/".join(f["key"].split("/")[:-1]) for f in d.fails}
+    bad = [f["key"] for f in rep.get("failing_inputs", []) if "/".join(f["key"].split("/")[:-1]) in still]
+    return (not bad, "; ".join(bad[:10]) or "all recorded differences are gone")
